@@ -360,7 +360,10 @@ func (index *PatternIndex) mod(ctx *Context, pairs []piPair, id string, op piOp)
 		for _, x := range sorted {
 			var xPair piPair
 			xPair.key = k
-			xPair.val = picast(ctx, x)
+			// Not cast here: mod casts each pair's value when it
+			// gets to it (casting null twice would index it under
+			// a token the search never looks up).
+			xPair.val = x
 			morePairs = append(morePairs, xPair)
 		}
 		rest = append(morePairs, rest...)
